@@ -214,6 +214,22 @@ def _nice_model(eng, phi_neg, inputs):
     return None
 
 
+def _extra_model(eng, extra):
+    s = eng.solver
+    s.push()
+    try:
+        for c in extra:
+            s.add(c.t if isinstance(c, SB) else c)
+        s.set('timeout', 5000)
+        r = s.check()
+        s.set('timeout', eng.timeout_ms)
+        if r == z3.sat:
+            return s.model()
+    finally:
+        s.pop()
+    return None
+
+
 def run_task(task):
     """worker: explore one (obligation, cube)"""
     modname, oblname, cube_idx, opts = task
@@ -272,7 +288,13 @@ def run_task(task):
             if res.diff is not None and do_diff and bad is None:
                 dopts = res.diff[2] if len(res.diff) > 2 else {}
                 model = None
-                if dopts.get('nice'):
+                if dopts.get('extra'):
+                    # extra constraints for the differential model only (e.g. keep variates away from
+                    # comparison boundaries so that float and exact evaluation agree)
+                    model = _extra_model(eng, dopts['extra'])
+                    if model is None:
+                        out['diff_skipped'] = out.get('diff_skipped', 0) + 1
+                elif dopts.get('nice'):
                     try:
                         model = _nice_model(eng, z3.BoolVal(True), res.inputs)
                     except Exception:
@@ -310,7 +332,7 @@ def run_task(task):
         try:
             eng.explore(run, end)
         except _Stop:
-            pass
+            out['stopped'] = True
         out['stats'] = eng.stats
         out['executed'] = sorted(tw.executed)
     except Inconclusive as e:
@@ -508,7 +530,7 @@ def run_check(modname, pid, tier, meta):
         po = per_obl.get(o.name, dict(paths=0, outcomes={}, reach={}))
         if early_stop:
             break
-        if not [r for r in results if r['obl'] == o.name and r['error']]:
+        if not [r for r in results if r['obl'] == o.name and (r['error'] or r.get('stopped'))]:
             for ex in o.expect:
                 if po['outcomes'].get(ex, 0) == 0:
                     msgs.append("INCONCLUSIVE property=%s vacuity guard: obligation %s never reached outcome %r" % (pid, o.name, ex))
